@@ -14,7 +14,7 @@ theorem Inv.congr {s s' : State} (hI : Inv s) (h1 : s'.pc = s.pc) (h2 : s'.lock 
   obtain ⟨kindC, kindF, lockOk, frWait, freshOk, freshUniq, freshVer, freshVerT, freshNode, wFreeTaken, preOk, postOk, ownOk, rsmTaken,
     freeTaken, pubNode, waiting, parked, listOk, scanOk, prevOk, placed, freshHolder, scanL0, unlockL0, oScanOk, oNoneOk, aUnlockOk, aNextOk, aResumeOk, aFreeOk,
     noRead, cTakeOk, cRemoveOk, allocUsed, noBad⟩ := hI
-  constructor <;> (try unfold ListOk ScanOk PrevOk MemOk CancelPending at *) <;> simp only [h1, h2, h3, h4, h5, h6, h7, h8, h9] <;> assumption
+  constructor <;> (try unfold ListOk ScanOk PrevOk ScanL0 UnlockL0 MemOk CancelPending at *) <;> (try simp only [h1, h2, h3, h4, h5, h6, h7, h8, h9]) <;> assumption
 
 set_option maxHeartbeats 1600000 in
 theorem Inv.pcOnly {s : State} (hI : Inv s) {a : Actor} {p : Pc}
@@ -79,8 +79,8 @@ theorem Inv.pcOnly {s : State} (hI : Inv s) {a : Actor} {p : Pc}
     · inv_simp; grind [updA]
   case placed => inv_auto
   case freshHolder => inv_auto
-  case scanL0 => inv_auto
-  case unlockL0 => inv_auto
+  case scanL0 => unfold ScanL0 at *; inv_auto
+  case unlockL0 => unfold ScanL0 UnlockL0 at *; inv_auto
   case oScanOk => inv_auto
   case oNoneOk => inv_auto
   case aUnlockOk => inv_auto
